@@ -75,9 +75,8 @@ func zzH_c01_sign_spec() {
 //verif:expect-reach end
 //verif:bound abstract prime-order group of order 257 in place of the curve; public key any point d in [1,q-2]; r and s any 16-bit magnitudes with either sign (covers 0, n, n+1, > n, negative), digest 2 symbolic bytes
 //verif:outside the real curve (C03); the hash (C04)
-//verif:stub-symbolic (*github.com/tjfoc/gmsm/sm2.PublicKey).Sm3Digest zzStubDigest
-//verif:stub-symbolic github.com/tjfoc/gmsm/sm2.ZA zzStubZA01
-//verif:stub-symbolic github.com/tjfoc/gmsm/sm2.msgHash zzStubMsgHash01
+//verif:stub github.com/tjfoc/gmsm/sm2.ZA zzStubZA01
+//verif:stub github.com/tjfoc/gmsm/sm2.msgHash zzStubMsgHash01
 //verif:unwind 40
 func zzH_c01_verify_gates() {
 	g := zzNewGroup(257)
